@@ -11,6 +11,7 @@ import Chrono.Props.GenDate
 import Chrono.Props.GenDelta
 import Chrono.Proofs.GenTimeL
 import Chrono.Model.DateArith
+import Chrono.Model.DateOps
 
 namespace Chrono.Props.GenDateOps
 open Chrono Chrono.M Chrono.Extracted Chrono.Extracted.DateOps Chrono.Proofs.GenL Chrono.Proofs.GenDateL
@@ -143,5 +144,230 @@ theorem gen_date_signed_duration_since_eq (a b : Date)
     ckI64_ok (by omega), bind_ok, GenDelta.gen_try_days_eq]
   dsimp only
   cases Delta.try_days ((a.year / 400 - b.year / 400) * 146097 + ((c1 : Int) - (c2 : Int))) <;> rfl
+
+/-! ### field replacement (`impl Datelike for NaiveDate`; `u32` arguments are `Nat`s of the `u32` range) -/
+
+theorem mdf_lt (d : Date) (m : Nat) (h : d.mdf = .ok m) : m < 8192 := by
+  unfold Date.mdf Mdf.from_ol at h
+  have hM : MAX_OL = 732 := rfl
+  have hv := tbl_ol.2
+  by_cases hc : 1 < d.ol ∧ (d.ol : Int) ≤ MAX_OL
+  · rw [if_pos hc] at h
+    have := hv d.ol (by omega)
+    have hf : d.flags < 16 := by unfold Date.flags; omega
+    generalize OL_TO_MDL.getD d.ol 0 = v at h this
+    simp only [] at h
+    injection h with h
+    have hmx : max ((d.ol + v) % 2) (d.flags / 8 % 2) ≤ 1 := by
+      rw [Nat.max_def]; split <;> omega
+    omega
+  · rw [if_neg hc] at h; cases h
+
+theorem gen_with_year_eq (d : Date) (year : Int) :
+    Gen.naive_date.NaiveDate.Datelike.with_year d.yof year
+      = rmap (Option.map Date.yof) (d.with_year year) := by
+  unfold Gen.naive_date.NaiveDate.Datelike.with_year Date.with_year
+  rw [GenDate.gen_mdf_eq]
+  cases hm : d.mdf with
+  | panic => rfl
+  | ok m =>
+    have hlt := mdf_lt d m hm
+    simp only [rmap, bind_ok]
+    rw [GenDate.gen_from_year_eq, bind_ok]
+    have hF := from_year_lt year
+    show Gen.naive_date.NaiveDate.from_mdf year (Gen.naive_internals.Mdf.with_flags (m : Nat) (YearFlags.from_year year : Nat)) = _
+    rw [GenDate.gen_mdf_with_flags_eq m _ (by omega) hF]
+    have hw : Mdf.with_flags m (YearFlags.from_year year) ≤ 4294967295 := by unfold Mdf.with_flags; omega
+    exact GenDate.gen_from_mdf_eq year _ hw
+
+theorem gen_with_month_eq (d : Date) (month : Nat) (hd : -2147483648 ≤ d.yof ∧ d.yof ≤ 2147483647)
+    (hm : month ≤ 4294967295) :
+    Gen.naive_date.NaiveDate.Datelike.with_month d.yof month
+      = rmap (Option.map Date.yof) (d.with_month month) := by
+  unfold Gen.naive_date.NaiveDate.Datelike.with_month Date.with_month
+  rw [GenDate.gen_mdf_eq]
+  cases hmdf : d.mdf with
+  | panic => rfl
+  | ok m =>
+    have hlt := mdf_lt d m hmdf
+    simp only [rmap, bind_ok]
+    show (match Gen.naive_internals.Mdf.with_month (m : Nat) (month : Nat) with
+      | some r2 => Gen.naive_date.NaiveDate.with_mdf d.yof r2 | none => Res.ok none) = _
+    rw [GenDate.gen_mdf_with_month_eq m month hm]
+    cases hw : Mdf.with_month m month with
+    | none => rfl
+    | some m2 =>
+      have : m2 ≤ 4294967295 := by
+        unfold Mdf.with_month at hw; split at hw
+        · cases hw
+        · injection hw with hw; omega
+      exact GenDate.gen_with_mdf_eq d m2 hd this
+
+theorem gen_with_day_eq (d : Date) (day : Nat) (hd : -2147483648 ≤ d.yof ∧ d.yof ≤ 2147483647)
+    (hm : day ≤ 4294967295) :
+    Gen.naive_date.NaiveDate.Datelike.with_day d.yof day
+      = rmap (Option.map Date.yof) (d.with_day day) := by
+  unfold Gen.naive_date.NaiveDate.Datelike.with_day Date.with_day
+  rw [GenDate.gen_mdf_eq]
+  cases hmdf : d.mdf with
+  | panic => rfl
+  | ok m =>
+    have hlt := mdf_lt d m hmdf
+    simp only [rmap, bind_ok]
+    show (match Gen.naive_internals.Mdf.with_day (m : Nat) (day : Nat) with
+      | some r2 => Gen.naive_date.NaiveDate.with_mdf d.yof r2 | none => Res.ok none) = _
+    rw [GenDate.gen_mdf_with_day_eq m day (by omega) hm]
+    cases hw : Mdf.with_day m day with
+    | none => rfl
+    | some m2 =>
+      have : m2 ≤ 4294967295 := by
+        unfold Mdf.with_day at hw; split at hw
+        · cases hw
+        · injection hw with hw; omega
+      exact GenDate.gen_with_mdf_eq d m2 hd this
+
+theorem gen_with_month0_unfold (yof x : Int) :
+    Gen.naive_date.NaiveDate.Datelike.with_month0 yof x =
+      (match optU32 (x + 1) with
+      | some v => Gen.naive_date.NaiveDate.Datelike.with_month yof v
+      | none => .ok none) := rfl
+
+theorem gen_with_month0_eq (d : Date) (month0 : Nat) (hd : -2147483648 ≤ d.yof ∧ d.yof ≤ 2147483647)
+    (hm : month0 ≤ 4294967295) :
+    Gen.naive_date.NaiveDate.Datelike.with_month0 d.yof month0
+      = rmap (Option.map Date.yof) (d.with_month0 month0) := by
+  rw [gen_with_month0_unfold]
+  unfold Date.with_month0
+  have hU : U32_MAX = 4294967295 := rfl
+  rw [optU32_def]
+  by_cases h : 0 ≤ (month0 : Int) + 1 ∧ (month0 : Int) + 1 ≤ 4294967295
+  · rw [if_pos h, if_pos (by omega)]
+    have := gen_with_month_eq d (month0 + 1) hd (by omega)
+    have e : ((month0 + 1 : Nat) : Int) = (month0 : Int) + 1 := by omega
+    rw [e] at this
+    exact this
+  · rw [if_neg h, if_neg (by omega)]; rfl
+
+theorem gen_with_day0_unfold (yof x : Int) :
+    Gen.naive_date.NaiveDate.Datelike.with_day0 yof x =
+      (match optU32 (x + 1) with
+      | some v => Gen.naive_date.NaiveDate.Datelike.with_day yof v
+      | none => .ok none) := rfl
+
+theorem gen_with_day0_eq (d : Date) (day0 : Nat) (hd : -2147483648 ≤ d.yof ∧ d.yof ≤ 2147483647)
+    (hm : day0 ≤ 4294967295) :
+    Gen.naive_date.NaiveDate.Datelike.with_day0 d.yof day0
+      = rmap (Option.map Date.yof) (d.with_day0 day0) := by
+  rw [gen_with_day0_unfold]
+  unfold Date.with_day0
+  have hU : U32_MAX = 4294967295 := rfl
+  rw [optU32_def]
+  by_cases h : 0 ≤ (day0 : Int) + 1 ∧ (day0 : Int) + 1 ≤ 4294967295
+  · rw [if_pos h, if_pos (by omega)]
+    have := gen_with_day_eq d (day0 + 1) hd (by omega)
+    have e : ((day0 + 1 : Nat) : Int) = (day0 : Int) + 1 := by omega
+    rw [e] at this
+    exact this
+  · rw [if_neg h, if_neg (by omega)]; rfl
+
+/-- `u32`: `b` lies in bits 0…4, which are clear in `a` (`(month << 5) | day`) -/
+theorem lorU_field_0_5 (a b : Int) (ha : 0 ≤ a) (hb : 0 ≤ b) (h1 : a % 32 = 0) (h3 : b < 32) :
+    GenRt.lorU a b = a + b := by
+  unfold GenRt.lorU
+  have := nat_lor_field a.toNat b.toNat 0 5 1 32 (by decide) (by decide) (by omega) (by omega) (by omega)
+  rw [this]
+  show ((a.toNat + b.toNat : Nat) : Int) = a + b
+  omega
+
+theorem gen_years_since_eq (d base : Date) :
+    Gen.naive_date.NaiveDate.years_since d.yof base.yof = d.years_since base := by
+  unfold Gen.naive_date.NaiveDate.years_since Date.years_since
+  simp only [GenDate.gen_year_eq, GenDate.gen_month_eq, GenDate.gen_day_eq]
+  cases hy : ckI32 (d.year - base.year) <;> cases hm1 : d.month <;> cases hd1 : d.day <;>
+    cases hm0 : base.month <;> cases hd0 : base.day <;> try rfl
+  rename_i years m1 d1 m0 d0
+  have r1 := month_day_range d m1 d1 hm1 hd1
+  have r0 := month_day_range base m0 d0 hm0 hd0
+  simp only [rmap, bind_ok]
+  have hyr : -2147483648 ≤ years ∧ years ≤ 2147483647 := by
+    rw [ckI32_def] at hy; split at hy
+    · injection hy with hy; omega
+    · cases hy
+  have e1 : GenRt.lorU (Int.ofNat m1 * 32 % 4294967296) (Int.ofNat d1) = (m1 : Int) * 32 + d1 := by
+    simp only [Int.ofNat_eq_natCast]
+    rw [lorU_field_0_5 _ _ (by omega) (by omega) (by omega) (by omega)]; omega
+  have e0 : GenRt.lorU (Int.ofNat m0 * 32 % 4294967296) (Int.ofNat d0) = (m0 : Int) * 32 + d0 := by
+    simp only [Int.ofNat_eq_natCast]
+    rw [lorU_field_0_5 _ _ (by omega) (by omega) (by omega) (by omega)]; omega
+  rw [e1, e0]
+  have hau : ∀ y : Int, 0 ≤ y → y ≤ 2147483647 → asU32 y = y := fun y h1 h2 => Proofs.asU32_id h1 (by omega)
+  by_cases hlt : m1 * 32 + d1 < m0 * 32 + d0
+  · rw [if_pos (by omega), if_pos hlt]
+    by_cases hk : -2147483648 ≤ years - 1 ∧ years - 1 ≤ 2147483647
+    · rw [ckI32_ok hk, bind_ok]
+      dsimp only
+      by_cases h0 : years - 1 ≥ 0
+      · rw [if_pos h0, if_pos h0, hau _ (by omega) (by omega)]
+      · rw [if_neg h0, if_neg h0]
+    · have e : ckI32 (years - 1) = .panic := by rw [ckI32_def, if_neg hk]
+      rw [e]; rfl
+  · rw [if_neg (by omega), if_neg hlt]
+    dsimp only
+    by_cases h0 : years ≥ 0
+    · rw [if_pos h0, if_pos h0, hau _ (by omega) (by omega)]
+    · rw [if_neg h0, if_neg h0]
+
+theorem gen_with_ordinal_eq (d : Date) (ordinal : Nat) (hd : -2147483648 ≤ d.yof ∧ d.yof ≤ 2147483647)
+    (_ho : ordinal ≤ 4294967295) :
+    Gen.naive_date.NaiveDate.Datelike.with_ordinal d.yof ordinal
+      = rmap (Option.map Date.yof) (d.with_ordinal ordinal) := by
+  unfold Gen.naive_date.NaiveDate.Datelike.with_ordinal Date.with_ordinal Gen.naive_date.NaiveDate.yof
+  have h1 : WO_ZERO = 0 := rfl
+  have h2 : WO_MAX = 366 := rfl
+  have h3 : DATE_MAX_OL = 5856 := rfl
+  by_cases hc : (ordinal : Int) = 0 ∨ (ordinal : Int) > 366
+  · rw [if_pos hc, if_pos (show ordinal = WO_ZERO ∨ ordinal > WO_MAX by omega)]; rfl
+  · rw [if_neg hc, if_neg (show ¬(ordinal = WO_ZERO ∨ ordinal > WO_MAX) by omega)]
+    have e1 : asI32 ((ordinal : Int) * 16 % 4294967296) = (ordinal : Int) * 16 := by
+      rw [Proofs.asI32_id (by omega) (by omega)]; omega
+    have e2 : GenRt.lorI 32 asI32 (d.yof - d.yof / 16 % 512 * 16) ((ordinal : Int) * 16)
+        = d.yof - d.ordinal * 16 + (ordinal : Int) * 16 := by
+      rw [lorI_field_4_9 _ _ (by omega) (by omega) (by omega) (by omega) (by omega)]; rfl
+    rw [e1]
+    dsimp only
+    rw [e2]
+    generalize d.yof - d.ordinal * 16 + (ordinal : Int) * 16 = y
+    by_cases hy : y / 8 % 1024 * 8 ≤ 5856
+    · rw [if_pos hy, if_pos (by omega), GenDate.gen_from_yof_eq y (by omega)]
+      cases Date.from_yof y <;> rfl
+    · rw [if_neg hy, if_neg (by omega)]; rfl
+
+theorem gen_with_ordinal0_unfold (yof x : Int) :
+    Gen.naive_date.NaiveDate.Datelike.with_ordinal0 yof x =
+      (match optU32 (x + 1) with
+      | some v => Gen.naive_date.NaiveDate.Datelike.with_ordinal yof v
+      | none => .ok none) := rfl
+
+theorem gen_with_ordinal0_eq (d : Date) (ordinal0 : Nat) (hd : -2147483648 ≤ d.yof ∧ d.yof ≤ 2147483647)
+    (hm : ordinal0 ≤ 4294967295) :
+    Gen.naive_date.NaiveDate.Datelike.with_ordinal0 d.yof ordinal0
+      = rmap (Option.map Date.yof) (d.with_ordinal0 ordinal0) := by
+  rw [gen_with_ordinal0_unfold]
+  unfold Date.with_ordinal0
+  have hU : U32_MAX = 4294967295 := rfl
+  rw [optU32_def]
+  by_cases h : 0 ≤ (ordinal0 : Int) + 1 ∧ (ordinal0 : Int) + 1 ≤ 4294967295
+  · rw [if_pos h, if_pos (by omega)]
+    have := gen_with_ordinal_eq d (ordinal0 + 1) hd (by omega)
+    have e : ((ordinal0 + 1 : Nat) : Int) = (ordinal0 : Int) + 1 := by omega
+    rw [e] at this
+    exact this
+  · rw [if_neg h, if_neg (by omega)]; rfl
+
+/-! ### `NaiveDate::week` / `NaiveWeek` (a `Weekday` is its discriminant, Monday = 0) -/
+
+theorem gen_week_eq (d : Date) (start : Weekday) :
+    Gen.naive_date.NaiveDate.week d.yof (start.toNat : Nat)
+      = ⟨(d.week start).date.yof, ((d.week start).start.toNat : Nat)⟩ := rfl
 
 end Chrono.Props.GenDateOps
